@@ -1,7 +1,7 @@
 (** Statement pins for C18: the headline theorems must have exactly these
     types, so they cannot be weakened silently. *)
 From RsM Require Import Lib.MachInt Model.Btp Model.BtpSpec
-  Proofs.BtpCodec Proofs.BtpFacts Proofs.BtpHostile Proofs.BtpPair Props.C18.
+  Proofs.BtpCodec Proofs.BtpFacts Proofs.BtpHostile Proofs.BtpPair Proofs.BtpHandshake Props.C18.
 Open Scope N_scope.
 
 Check (C18_hostile_safe : forall ops : list op,
@@ -10,26 +10,26 @@ Check (C18_refused_changes_nothing : forall (i : inner) (g : option N) (a : N) (
   snd (step i (OIn g a d)) = RErr c -> fst (step i (OIn g a d)) = i).
 Check (C18_pair_safe : forall m w : N,
   20 <= m <= 244 -> 1 <= w <= 255 -> w * m + 1234 <= RX_CAP ->
-  forall (c : cfg) (ver : N) (ops : list sop),
-  mon_pair ops (snd (sys_run c (sys_established c ver m w) ops)) = true).
+  forall (c : cfg) (ver : N) (rel : bool) (ops : list sop),
+  mon_pair ops (snd (sys_run c (sys_established c ver m w rel) ops)) = true).
 Check (C18_exactly_once_in_order : forall m w : N,
   20 <= m <= 244 -> 1 <= w <= 255 -> w * m + 1234 <= RX_CAP ->
-  forall (c : cfg) (ver : N) (ops : list sop),
-  let rs := snd (sys_run c (sys_established c ver m w) ops) in
+  forall (c : cfg) (ver : N) (rel : bool) (ops : list sop),
+  let rs := snd (sys_run c (sys_established c ver m w rel) ops) in
   (exists rest, submitted SA ops rs = fetched SB ops rs ++ rest) /\
   (exists rest, submitted SB ops rs = fetched SA ops rs ++ rest)).
 Check (C18_window_respected : forall m w : N,
   20 <= m <= 244 -> 1 <= w <= 255 -> w * m + 1234 <= RX_CAP ->
-  forall (c : cfg) (ver : N) (ops : list sop),
-  let s := fst (sys_run c (sys_established c ver m w) ops) in
+  forall (c : cfg) (ver : N) (rel : bool) (ops : list sop),
+  let s := fst (sys_run c (sys_established c ver m w rel) ops) in
   nlen (chAB s) + rack_level (recv (sess (epB s))) + slevel (send (sess (epA s))) <= w /\
   nlen (chAB s) <= rlevel (recv (sess (epB s))) /\
   nlen (chBA s) + rack_level (recv (sess (epA s))) + slevel (send (sess (epB s))) <= w /\
   nlen (chBA s) <= rlevel (recv (sess (epA s)))).
 Check (C18_ack_enabled : forall m w : N,
   20 <= m <= 244 -> 1 <= w <= 255 -> w * m + 1234 <= RX_CAP ->
-  forall (c : cfg) (ver : N) (ops : list sop) (x : side) (t : bool),
-  let s := fst (sys_run c (sys_established c ver m w) ops) in
+  forall (c : cfg) (ver : N) (rel : bool) (ops : list sop) (x : side) (t : bool),
+  let s := fst (sys_run c (sys_established c ver m w rel) ops) in
   is_ack_due (sess (ep s x)) t = true -> 1 <= slevel (send (sess (ep s x))) ->
   exists b h p,
     snd (step (ep s x) (OOut (gatt_of c x) t POLL_CAP)) = RBytes b /\
@@ -45,3 +45,14 @@ Check (C18_monitor_sound : forall (ops : list sop) (rs : list (out * snap * snap
   ((exists rest, submitted SA ops rs = fetched SB ops rs ++ rest) /\
    (exists rest, submitted SB ops rs = fetched SA ops rs ++ rest)) /\
   Forall2 (fun o r => answer_ok o (fst (fst r))) ops rs).
+Check (C18_handshake_establishes : forall (c : cfg) (rel t1 t2 : bool),
+  let m := nego_mtu (gattA c) (gattB c) rel in
+  let w := nego_win (gattA c) (gattB c) rel in
+  fst (sys_run c (sys_fresh rel) [SPoll SA t1; SDeliver SB; SPoll SB t2; SDeliver SA])
+    = sys_established c 4 m w rel /\
+  20 <= m <= 244 /\ 1 <= w <= 255 /\ w * m + 1234 <= RX_CAP).
+Check (C18_fresh_pair_safe : forall (c : cfg) (rel t1 t2 : bool) (ops : list sop),
+  mon_pair ops
+    (snd (sys_run c
+            (fst (sys_run c (sys_fresh rel) [SPoll SA t1; SDeliver SB; SPoll SB t2; SDeliver SA]))
+            ops)) = true).
